@@ -38,6 +38,9 @@ type ScalarCase struct {
 	// tag carrier: the struct holding the field sits this many levels below the validated
 	// object (each level: a pointer field In marked required)
 	Nest int `json:"nest,omitempty"`
+	// builder API (map, url, rm carriers without per-call functions): the rule map is handed to SetRule
+	// while still empty and filled afterwards, before Valid (a rule map is a Go map: the validator sees it live)
+	LateRule bool `json:"laterule,omitempty"`
 	noDup bool
 }
 
@@ -192,6 +195,14 @@ func (c *ScalarCase) prepare() func() error {
 				return valid.StructForFns(src, valid.NewRule().Set("K", rs...), fm)
 			}
 		}
+		if c.LateRule {
+			return func() error {
+				rm := valid.NewRule()
+				vs := valid.NewVStruct().SetRule(rm)
+				rm.Set("K", rs...)
+				return vs.Valid(src)
+			}
+		}
 		return func() error { return valid.StructForFn(src, valid.NewRule().Set("K", rs...)) }
 	case "map", "mapiface", "listmap":
 		et := v.Type()
@@ -238,6 +249,15 @@ func (c *ScalarCase) prepare() func() error {
 				return valid.MapFn(src, valid.RM{scalarKey: rules}, fm)
 			}
 		}
+		if c.LateRule {
+			return func() error {
+				rm := valid.RM{"zz": "required"} // (SetRule of an empty map is "no rules": a placeholder entry, removed again)
+				vm := valid.NewVMap().SetRule(rm)
+				rm[scalarKey] = rules
+				delete(rm, "zz")
+				return vm.Valid(src)
+			}
+		}
 		return func() error { return valid.Map(src, valid.RM{scalarKey: rules}) }
 	case "url", "urlenc":
 		var params []string
@@ -270,6 +290,14 @@ func (c *ScalarCase) prepare() func() error {
 				for _, n := range fns {
 					vu.SetValidFn(n, perCallFn(n))
 				}
+				return vu.Valid(usrc)
+			}
+		}
+		if c.LateRule {
+			return func() error {
+				rm := valid.NewRule()
+				vu := valid.NewVUrl().SetRule(rm)
+				rm[scalarKey] = rules
 				return vu.Valid(usrc)
 			}
 		}
